@@ -43,23 +43,26 @@ let args_of (s : string) : n list list =
   if s = "" then [] else List.map bytes_of_hex (split_on ',' s)
 
 let () =
-  let ms = ref m_init and ss = ref s_init and compact = ref false in
+  let ms = ref m_init and ss = ref s_init and compact = ref false and now = ref Z0 in
   let both mo so = if mo = so then mo else "SPECDIFF map=<" ^ mo ^ "> spec=<" ^ so ^ ">" in
   let observe t key =
     let tn = n_of_int (Char.code t) in
-    both (obs_str t (map_observe tn key !ms)) (obs_str t (spec_observe tn key !ss)) in
+    both (obs_str t (map_observe !compact !now tn key !ms)) (obs_str t (spec_observe !compact !now tn key !ss)) in
   let run id ts args =
     match parse_cmd args with
     | None -> Printf.printf "%s\tunsupported\n" id
     | Some c ->
-      let (ms', mr) = map_step !compact ts c !ms in
-      let (ss', sr) = spec_step c !ss in
+      let (ms', mr) = map_step !compact !now ts c !ms in
+      let (ss', sr) = spec_step !compact !now ts c !ss in
       ms := ms'; ss := ss';
       Printf.printf "%s\t%s\n" id (both (reply_str mr) (reply_str sr)) in
   read_lines stdin (fun line ->
     match split_on '\t' line with
-    | id :: "S" :: policy :: _ ->
+    | id :: "S" :: policy :: rest ->
+      (* the read clock: wall-clock second of the harness, as nanoseconds *)
+      let nowsec = match rest with n :: _ -> (try int_of_string n with _ -> 0) | [] -> 0 in
       ms := m_init; ss := s_init; compact := (policy = "compact");
+      now := z_of_int (nowsec * 1000000000);
       Printf.printf "%s\tok\n" id
     | id :: "W" :: _ :: _ :: ts :: hexargs :: _ ->
       run id (z_of_int (int_of_string ts)) (args_of hexargs)
